@@ -13,7 +13,7 @@ if [ "$MODE" = inplace ]; then
 else
   WT=/tmp/wt/run_${NAME}_$PID
   git -C /repo worktree remove --force $WT 2>/dev/null
-  git -C /repo worktree add -q --detach $WT HEAD || exit 3
+  git -C /repo worktree add -q --detach $WT ${BASE_REF:-HEAD} || exit 3
   git -C $WT apply /verif/seeded/$NAME/patch.diff || { echo "apply failed"; git -C /repo worktree remove --force $WT; exit 3; }
   VERIF_NO_EVIDENCE=1 VERIF_REPO=$WT ./check $PID --tier $TIER > /tmp/seedrun_${NAME}_$PID.log 2>&1; RC=$?
   git -C /repo worktree remove --force $WT
